@@ -55,6 +55,8 @@ type Op struct {
 	Seed     string `json:"seed,omitempty"` // advance: decimal big int for the AppHash
 	TxAddrs  []int  `json:"txAddrs,omitempty"`
 	PeerOk   *bool  `json:"peerOk,omitempty"`
+	RemoveForeign []int `json:"removeForeign,omitempty"` // didupdate: account numbers of another sid identity put on the remove list
+	ForeignSid    int   `json:"foreignSid,omitempty"`
 	CidOk    *bool  `json:"cidOk,omitempty"`
 	Cid      string `json:"cid,omitempty"`
 	// proposal fields
@@ -708,6 +710,16 @@ func (w *World) Exec(op *Op) (Result, M) {
 				rem = append(rem, ad)
 				if x, found := app.DidKeeper.GetAccountId(ctx, ad); found {
 					remAcc = append(remAcc, w.accJSON(x.AccountId))
+				}
+			}
+			if op.ForeignSid != 0 {
+				froot := w.SidRoot(op.ForeignSid)
+				for _, a := range op.RemoveForeign {
+					ad := fmt.Sprintf("did:key:acct%d-of-%s", a, froot[:8])
+					rem = append(rem, ad)
+					if x, found := app.DidKeeper.GetAccountId(ctx, ad); found {
+						remAcc = append(remAcc, w.accJSON(x.AccountId))
+					}
 				}
 			}
 		}
